@@ -170,7 +170,7 @@ def rule_dec(ctx):
     rets = [n for n in walk_no_nested(pl) if isinstance(n, ast.Return)]
     ok = False
     if rets and isinstance(rets[-1].value, ast.Tuple) and len(rets[-1].value.elts) == 2:
-        a, b = rets[-1].value.elts
+        a, b = [deep_expand(p, x, pl, stop={"s"}) for x in rets[-1].value.elts]
         sa = a.args[0] if isinstance(a, ast.Call) and a.args else a
         ok = isinstance(sa, ast.Subscript) and isinstance(b, ast.Subscript) and src(sa.slice) == ":3" and src(b.slice) == "3:" and src(sa.value) == src(b.value) \
             and isinstance(a, ast.Call) and last_attr(a.func) == "Code"
@@ -233,7 +233,7 @@ def rule_dec(ctx):
             continue
         n_app = sum(1 for n in evaluated(ev) for c in walk_self(n) if isinstance(c, ast.Call) and is_method_call(c, "append"))
         n_read = sum(1 for n in evaluated(ev) for c in walk_self(n) if is_self_call(c, {"parse_line"}))
-        if n_app != 1 or n_read != 1 or out[0] in ("break", "return", "continue"):
+        if n_app != 1 or n_read != 1 or out[0] in ("break", "return"):
             ok = False
     first_ok = any(isinstance(n, ast.Assign) and isinstance(n.value, ast.List) and [src(e) for e in n.value.elts] == [rest0] for n in pr.body)
     ctx.ob("C06.DEC", pr, "every decoded line is appended exactly once (first line included)", ok and first_ok,
